@@ -107,3 +107,37 @@ func Verif_C14_shared_unit() {
 
 // ModelMkdir creates a directory through the (real or modelled) file system.
 func ModelMkdir(p string) error { return osMkdirAll(p) }
+
+// Verif_C14_update_sequence: the daemon and the runner (separate in-memory copies, as separate
+// processes have) take turns updating one status file, four updates in any order of the two writers,
+// every value arbitrary (so a writer may repeat exactly what it wrote before while the other wrote in
+// between): after EVERY update the stored record holds the values of that update - an update is never
+// skipped or applied to a stale copy.
+func Verif_C14_update_sequence() {
+	dir := verifapi.TempDir()
+	file := dir + "/status"
+	init := &StatusFileData{State: WorkStatePending, Detail: "i", StdoutSize: 0, WorkType: "cmd"}
+	verifapi.Assert("initial-save", init.Save(file) == nil)
+	writers := []*StatusFileData{{}, {}}
+	for step := 0; step < 3+verifapi.Tier(); step++ {
+		w := writers[verifapi.Choose(2)]
+		state := verifapi.Choose(5)
+		detail := verifapi.String(1)
+		size := verifapi.Int64()
+		verifapi.Assume(verifapi.All(size >= -1, size < 100))
+		before := &StatusFileData{}
+		verifapi.Assert("readable-before", before.Load(file) == nil)
+		err := w.UpdateBasicStatus(file, state, detail, size)
+		verifapi.Assert("update-ok", err == nil)
+		after := &StatusFileData{}
+		verifapi.Assert("readable-after", after.Load(file) == nil)
+		wantSize := size
+		if size < 0 {
+			wantSize = before.StdoutSize
+		}
+		verifapi.Assert("stored-record-holds-this-update", verifapi.All(after.State == state, after.Detail == detail, after.StdoutSize == wantSize))
+		verifapi.Assert("other-fields-kept", after.WorkType == "cmd")
+		verifapi.Assert("writer-copy-equals-stored-record", verifapi.All(w.State == after.State, w.Detail == after.Detail, w.StdoutSize == after.StdoutSize))
+	}
+	verifapi.Cover("sequence-done")
+}
